@@ -119,6 +119,12 @@ func checkC08(w *Worker) {
 		r := runApp(c)
 		x.w.unwatch()
 		x.Obs(fmt.Sprint(r.Failed), firstLine(r.Panic))
+		if strings.HasPrefix(r.Err, "VERIF: the command does not return") {
+			// under the scheduler every goroutine of the command ended up blocked: it runs without bound (deadlock)
+			name := strings.Join(append(append([]string{}, cmd.Global...), cmd.Args...), " ")
+			x.Violate("C08|"+name+"|does-not-terminate", fmt.Sprintf("`%s`: %s", tailStr(c.shell(), 600), r.Err), map[string]interface{}{"args": args})
+			return
+		}
 		if r.Panic != "" {
 			name := strings.Join(append(append([]string{}, cmd.Global...), cmd.Args...), " ")
 			x.Violate("C08|"+name+"|panic", fmt.Sprintf("`%s` panics: %s", c.shell(), r.Panic), map[string]interface{}{"cmd": c.shell(), "files": files, "args": args})
@@ -247,7 +253,7 @@ func checkC08(w *Worker) {
 	// through every command shape; for the widest-reaching dimension (distinct elements per day) every PAIR of
 	// consecutive day sizes, so that whatever is sized on one day and reused on the next meets both growth directions
 	sizes := []int{1, 9, 17, 33, 40, 65, 70, 129, 300}
-	sizeDims := []string{"distinct-elements-per-day(pairs)", "elements-of-a-recipe", "recipes-in-the-book", "days", "name-length", "path-depth", "repeats-and-notes-in-a-day", "ingredient-recipes-of-a-recipe"}
+	sizeDims := []string{"distinct-elements-per-day(pairs)", "elements-of-a-recipe", "recipes-in-the-book", "days", "name-length", "path-depth", "repeats-and-notes-in-a-day", "ingredient-recipes-of-a-recipe", "bad-heading-between-two-runs-of-days"}
 	w.Explore("sizes-x-commands", ExploreOpts{ShardDepth: 3, NoAudit: true}, func(x *Exec) {
 		dim := x.Choose(len(sizeDims), "input:dimension")
 		n := sizes[x.Choose(len(sizes), "input:size")]
@@ -293,6 +299,15 @@ func checkC08(w *Worker) {
 			lg.WriteString("2021/01/24:\n")
 			for i := 0; i < n; i++ {
 				lg.WriteString(fmt.Sprintf("  r1: 1\n  # note%d: v\n  u: -1\n", i))
+			}
+		case 8:
+			// an error raised while a day is handled (a heading that is not a date), n days after the start and n before the end
+			for i := 0; i < 2*n+1; i++ {
+				if i == n {
+					lg.WriteString("2000/12/45:\n  r1: 1\n")
+					continue
+				}
+				lg.WriteString(fmt.Sprintf("20%02d/%02d/%02d:\n  r1: 1\n  x: %d\n", 21+i/336, 1+(i/28)%12, 1+i%28, i))
 			}
 		case 7:
 			book.WriteString("x:\n")
